@@ -172,6 +172,30 @@ def get_formatter(format: Format) -> typing.Callable[[str], str]:
 
 
 class PythonCodeGenerator(CodeGenerator):
+    import builtins as _builtins
+    import keyword as _keyword
+
+    reserved_names = (
+        CodeGenerator.reserved_names
+        | frozenset(_keyword.kwlist)
+        | frozenset(dir(_builtins))
+        | frozenset({"numpy", "jax", "state", "parameter", "monitor", "missing"})
+    )
+
+    def _is_reserved(self, name: str) -> bool:
+        # names of the functions of the generated module, and the result slots of the JAX backend
+        return name.startswith("_values_") or name in {
+            "rhs",
+            "monitor_values",
+            "missing_values",
+            "init_state_values",
+            "init_parameter_values",
+            "state_index",
+            "parameter_index",
+            "monitor_index",
+            "missing_index",
+        }
+
     def __init__(self, ode: ODE, format: Format = Format.black, *args, **kwargs) -> None:
         super().__init__(ode, *args, **kwargs)
 
